@@ -120,6 +120,16 @@ class OtherAuth(sl.AuthenticationCredential):
 
 
 @dataclasses.dataclass(frozen=True)
+class SubclassOfKnownControl(sl.ShowDeletedControl):
+    """An application type derived from a library-known control type, with its own OID. Defining it registers nothing."""
+    control_type: str = dataclasses.field(init=False, repr=False, default="1.2.3.4.96")
+
+    @classmethod
+    def unpack(cls, control_type, critical, value, options):
+        return SubclassOfKnownControl(critical=critical)
+
+
+@dataclasses.dataclass(frozen=True)
 class ClashControl(sl.LDAPControl):  # same OID as a built-in: registration must be refused
     control_type: str = dataclasses.field(init=False, repr=False, default="1.2.840.113556.1.4.319")
 
@@ -152,7 +162,7 @@ def gates(c, tier):
               "direct:unregistered-generic-control", "direct:unregistered-filter-protocolerror", "direct:unregistered-auth-protocolerror",
               "direct:duplicate-refused", "direct:builtin-clash-refused", "custom-bytes-in-sequence", "registration-in-sequence",
               "caller-buffer-shared-between-sessions", "direct:multi-control-messages", "direct:same-number-different-form", "direct:nested-custom-filter", "direct:deepcopy-independence", "fresh-process-reference-runs",
-              "direct:late-registration-decodes-custom", "direct:free-id-registrations", "direct:fresh-session-after-foreign-failure", "direct:one-memoryview-two-sessions",
+              "direct:late-registration-decodes-custom", "direct:free-id-registrations", "direct:fresh-session-after-foreign-failure", "direct:one-memoryview-two-sessions", "direct:subclass-of-known-control",
               "direct:fresh-session-after-many-unknown-codes", "direct:fresh-session-after-dropped-sessions"):
         if c.get(k, 0) == 0:
             out.append(f"never observed {k}")
@@ -739,6 +749,24 @@ def direct_checks():
                 obs["direct:fresh-session-after-dropped-sessions"] = 1
         except sl.LDAPError as e:
             vio.append(("dropped-sessions-limit-fresh-session", f"after 48 dropped sessions with ~2 MiB pending each, a fresh session failed on an 8 MiB entry: {type(e).__name__}: {str(e)[:120]}"))
+    # an application class derived from a library-known control type is like any other custom type: unknown to sessions
+    # that did not register it, registrable once by those that do
+    try:
+        sub_bytes = rfc4511.encode(("ExtendedRequest", 9, ("1.2.3", None), (("1.2.3.4.96", True, None, None),)))
+        plain9 = sl.LDAPServer().receive(sub_bytes)[0].controls[0]
+        if type(plain9) is not sl.LDAPControl:
+            vio.append(("registration-leaked:control:subclass-of-known-type", f"a session that registered nothing decoded the application's subclass of a known control as {type(plain9).__name__}"))
+        reg9 = sl.LDAPServer()
+        reg9.register_control(SubclassOfKnownControl)
+        got9c = reg9.receive(sub_bytes)[0].controls[0]
+        if type(got9c) is not SubclassOfKnownControl:
+            vio.append(("registered-control-not-decoded:subclass-of-known-type", f"decoded as {type(got9c).__name__}"))
+        else:
+            obs["direct:subclass-of-known-control"] = 1
+    except ValueError as e:
+        vio.append(("registration-leaked:control:subclass-of-known-type", f"first registration of a subclass of a known control on a fresh session refused: {e}"))
+    except sl.LDAPError as e:
+        vio.append(("registered-control-not-decoded:subclass-of-known-type", f"{type(e).__name__}: {e}"))
     # the custom filter nested under and / or / not
     regf = sl.LDAPServer()
     regf.register_filter(CustomFilter)
